@@ -402,6 +402,25 @@ Definition pool_result (r : wresult) (b : backend) : Z * string :=
          end
   end.
 
+(** state of the context the wrapped call runs under *)
+Inductive ctxstate := CLive | CCancelledBefore | CCancelledDuring | CDeadline.
+
+(** the wrapper consults the context nowhere: admission and recording are those of
+    [wrap_call] whatever the context state (the handler's outcome is what is recorded) *)
+Definition wrap_call_ctx (pol : policy) (now : Z) (cx : ctxstate) (h : houtcome) (c : cb) : wresult * cb :=
+  wrap_call pol now h c.
+
+(** ServerPool.doHandle: a transport error is reported according to the request context *)
+Definition pool_result_ctx (cx : ctxstate) (r : wresult) (b : backend) : Z * string :=
+  match r, b, cx with
+  | WShort, _, _ => pool_result r b
+  | WPanic, _, _ => pool_result r b
+  | _, BSendErr, CDeadline => (408, "timeout"%string)
+  | _, BSendErr, CCancelledBefore => (499, "clientError"%string)
+  | _, BSendErr, CCancelledDuring => (499, "clientError"%string)
+  | _, _, _ => pool_result r b
+  end.
+
 (** servers contacted by one request: none when short-circuited; an admitted request whose
     backend call fails is retried by the retry wrapper INSIDE the breaker's single call
     ([retry] = maxAttempts of a configured retry policy, 0 = none), except for stream
@@ -413,4 +432,11 @@ Definition pool_contacts (retry : Z) (stream : bool) (r : wresult) (b : backend)
          | BOk _ => 1
          | _ => if (0 <? retry) && negb stream then retry else 1
          end
+  end.
+
+(** the retry wrapper gives up after the first failed attempt when the context is done *)
+Definition pool_contacts_ctx (cx : ctxstate) (retry : Z) (stream : bool) (r : wresult) (b : backend) : Z :=
+  match cx with
+  | CLive => pool_contacts retry stream r b
+  | _ => pool_contacts 0 stream r b
   end.
